@@ -5,7 +5,7 @@ cd "$(dirname "$0")/.."
 tier=${1:-quick}
 for d in seeded/*/; do
   id=$(basename $d)
-  prop=$(python3 -c "import json;print(json.load(open('$d/meta.json'))['property'])")
+  prop=$(python3 -c "import json;print(json.load(open('$d/meta.json'))['property'].split()[0])")
   out=$(SEEDCHECK_LINES=1 tools/seedcheck.sh $d $prop $tier 2>&1 | tail -2 | tr '\n' ' ' | cut -c1-200)
   case "$out" in *violations=0*|*violations=\ *|*INCONCLUSIVE*|*"DOES NOT APPLY"*) echo "MISSED $id :: $out";; *) echo "caught $id :: $out";; esac
 done
